@@ -67,7 +67,9 @@ func init() {
 
 func runC33(c *Ctx) {
 	// AS lists are ordered SEQUENCE OF fields: encoding and decoding map them element by element, in order
-	for _, q := range []struct{ fn, param string }{{"pkg/scrypto/cppki.encodeASes", "arg0"}, {"pkg/scrypto/cppki.decodeASes", "arg0"}} {
+	for _, q := range []struct{ fn, param string }{{"pkg/scrypto/cppki.encodeASes", "arg0"}, {"pkg/scrypto/cppki.decodeASes", "arg0"},
+		{"pkg/scrypto/cppki.encodeCertificates", "arg0"}, {"pkg/scrypto/cppki.decodeCertificates", "arg0"},
+		{"pkg/scrypto/cppki.encodeVotes", "arg0"}, {"pkg/scrypto/cppki.decodeVotes", "arg0"}} {
 		if v := c.View(q.fn); v != nil {
 			why := orderPreservingMap(v, q.param)
 			c.Check(why == "", "E2-as-lists-in-order", v.Name()+":element-wise-in-order", v.Fn.Pos(),
@@ -264,6 +266,18 @@ func runC33(c *Ctx) {
 		v.RequireStore("E1-codec", 1, "local:complit.GracePeriod", "(local:a.GracePeriod * 1000000000:time.Duration)", "(time.Duration(local:a.GracePeriod) * 1000000000:time.Duration)")
 		v.RequireStore("E1-codec", 1, "local:complit.Quorum", "int(local:a.Quorum)")
 		v.RequireStore("E1-codec", 1, "local:complit.NoTrustReset", "local:a.NoTrustReset")
+		// every list / structured member comes from the wire member of the same name
+		for member, src := range map[string]string{
+			"CoreASes":          cp + "decodeASes(local:a.CoreASes)#0",
+			"AuthoritativeASes": cp + "decodeASes(local:a.AuthoritativeASes)#0",
+			"Certificates":      cp + "decodeCertificates(local:a.Certificates)#0",
+			"Votes":             cp + "decodeVotes(local:a.Votes)",
+			"ID":                cp + "decodeID(local:a.ID)#0",
+			"Validity":          cp + "decodeValidity(local:a.Validity)#0",
+			"Description":       "local:a.Description",
+		} {
+			v.RequireStore("E1-codec", 1, "local:complit."+member, src)
+		}
 		okRet := true
 		for _, r := range e.SuccessReturns() {
 			okRet = okRet && v.S.Sym(RetVal(r.(*ssa.Return), 0)) == "local:pld"
